@@ -68,7 +68,7 @@ static void blockCounting(long long b, long long d, unsigned n) {
 }
 
 // 64-bit extremes below the overflow threshold: dist + num - 1 < 2^64 and numper*num < 2^64
-static void blockBig(uint64_t d, unsigned n) {
+static void blockBig(uint64_t d, unsigned n, bool iter = false) {
   unsigned __int128 lim = ((unsigned __int128)1) << 64;
   if ((unsigned __int128)d + n - 1 >= lim) return;
   unsigned __int128 numper = ((unsigned __int128)d + n - 1) / n;
@@ -85,7 +85,12 @@ static void blockBig(uint64_t d, unsigned n) {
   }
   std::sort(done.begin(), done.end());
   for (unsigned id : done) {
-    auto r = galois::block_range<uint64_t>(0, d, id, n);
+    std::pair<uint64_t, uint64_t> r;
+    if (iter) {   // the iterator overload (what StandardRange / every static do_all uses), on counting iterators
+      typedef boost::counting_iterator<uint64_t> CI;
+      auto ri = galois::block_range(CI(0), CI(d), id, n);
+      r = {*ri.first, *ri.second};
+    } else r = galois::block_range<uint64_t>(0, d, id, n);
     if (!first) { lo += ","; hi += ","; idl += ","; }
     first = false;
     lo += vh::limbs(r.first); hi += vh::limbs(r.second); idl += std::to_string(id);
@@ -268,7 +273,7 @@ int main(int argc, char** argv) {
     std::vector<unsigned> ns = {1, 2, 3, 5, 7, 16, 64, 1000, 65536, 0x7fffffff};
     for (int k = 0; k < 40; ++k) ds.push_back(rng.next() | (1ull << 63));
     for (auto d : ds)
-      for (auto n : ns) blockBig(d, n);
+      for (auto n : ns) { blockBig(d, n); blockBig(d, n, true); }
   }
 
   // ---- divideNodesBinarySearch: exhaustive small degree sequences
